@@ -13,6 +13,14 @@ from .c03 import SIBLINGS, helper_for_field, r03_1, r03_2, r03_3
 from .common import chain, chains_in, deep_resolve, mentions, names_in, norm_field, reachable_without_edges, single_env
 from .shading import analyse_shading, check_strictly_above
 
+
+def _norm_gl(ctx, q):
+    """The method with a generator that is consumed by one loop written as the nested loops it stands for, and pairwise
+    tuple assignments split (`a, b = x[:i], x[i:]`)."""
+    from .normalise import normalised
+
+    return normalised(ctx, ctx.func(q), "genloops")
+
 PROPERTY = "C11"
 LEVEL = "other"
 EXPLANATION = (
@@ -289,7 +297,7 @@ def ungroup_always_flattens(ctx: Ctx, rep: Report, rid: str = "R11.7") -> None:
         rep.violation("Acl.ungroup", f"path [{held}] returns without flattening", "groups that the ACL holds stay groups on this path: shading() / delete_shadow(), which work on an ungrouped copy, do not see the entries inside them", where(f), inp="Acl(items=[AceGroup(...), ...]) without group_by; acl.shading()")
     else:
         rep.ok("Acl.ungroup", "every normal path stores the flattened list", where=where(f))
-    sh = ctx.func("Acl.shading")
+    sh = _norm_gl(ctx, "Acl.shading")
     rep.instance()
     if any(isinstance(x, ast.Call) and isinstance(x.func, ast.Attribute) and x.func.attr in ("ungroup", "_ungroup") for x in own_nodes(sh.node)):
         rep.ok("Acl.shading", "works on an ungrouped copy", where=where(sh))
@@ -303,7 +311,7 @@ def report_in_position_order(ctx: Ctx, rep: Report, rid: str = "R11.8") -> None:
     from .common import order_of
 
     rep.rule(rid)
-    f = ctx.func("Acl.shading")
+    f = _norm_gl(ctx, "Acl.shading")
     cfg = ctx.cfg(f)
     loops = [n for n in cfg.live if n.kind == "for"]
     rep.instance()
